@@ -46,7 +46,7 @@ pub struct ObjectReceiver {
     pub tsi: u64,
     pub endpoint: UDPEndpoint,
     oti: Option<oti::Oti>,
-    cache: Vec<Box<alc::AlcPktCache>>,
+    cache: VecDeque<Box<alc::AlcPktCache>>,
     cache_size: usize,
     max_size_allocated: usize,
     blocks: VecDeque<BlockDecoder>,
@@ -92,7 +92,7 @@ impl ObjectReceiver {
         ObjectReceiver {
             state: State::Receiving,
             oti: None,
-            cache: Vec::new(),
+            cache: VecDeque::new(),
             cache_size: 0,
             max_size_allocated,
             blocks: VecDeque::new(),
@@ -619,7 +619,8 @@ impl ObjectReceiver {
             return;
         }
 
-        while let Some(item) = self.cache.pop() {
+        // Replay in arrival order: a cached close-object flag must come after the packets it followed
+        while let Some(item) = self.cache.pop_front() {
             let pkt = item.to_pkt();
             if self.push_to_block(&pkt, now).is_err() {
                 self.error("Fail to push block", now, false);
@@ -702,7 +703,7 @@ impl ObjectReceiver {
             Some(size) => Ok(size),
             None => Err(FluteError::new("add overflow")),
         }?;
-        self.cache.push(Box::new(pkt.to_cache()));
+        self.cache.push_back(Box::new(pkt.to_cache()));
         Ok(())
     }
 
